@@ -245,3 +245,70 @@ func H_C08_overrideSite() {
 	vfNote(out)
 	vfAssert(out == "L<2Q2|pctx|PC>E", "the definition site renders the most-derived definition with that definition's defaults, context and default content")
 }
+
+// H_C08_generated (thorough): generated template sets - an extends chain of depth 0..2
+// (page -> mid -> root), every template with up to two imports of its own; each of the up to
+// nine templates defines block b or not (the root always does, at a definition site, and
+// also yields it): executing the page renders the root body with the definition of highest
+// precedence at both sites - the page's own, then its imports (later over earlier), then
+// the same for each ancestor in turn - and nothing of the text outside blocks in the
+// extending templates or of the imports' bodies.
+//
+//gosym:reach rendered
+//gosym:thorough-only
+//gosym:opts maxpaths=400000 wall=1500
+func H_C08_generated() {
+	depth := ndChoice("depth", 3)
+	names := []string{"page", "mid", "root"}
+	chain := names[2-depth:] // depth 0: [root]; 1: [mid root]; 2: [page mid root]
+	var files []string
+	winner := ""
+	for k, n := range chain {
+		isRoot := k == len(chain)-1
+		src := ""
+		if !isRoot {
+			src = `{{ extends "/` + chain[k+1] + `.jet" }}`
+		}
+		// imports: slot state 0 absent, 1 present without b, 2 present with b
+		i1 := ndChoice(n+".imp1", 3)
+		i2 := ndChoice(n+".imp2", 3)
+		own := isRoot || ndBool(n+".own")
+		for s, st := range []int{i1, i2} {
+			if st == 0 {
+				continue
+			}
+			in := "/" + n + "_i" + ndItoa(s+1) + ".jet"
+			src += `{{ import "` + in + `" }}`
+			body := "IMPORTTEXT{{ block other" + ndItoa(s) + "() }}o{{ end }}"
+			if st == 2 {
+				body += `{{ block b() }}` + n + `-imp` + ndItoa(s+1) + `{{ end }}`
+			}
+			files = append(files, in, body)
+		}
+		if isRoot {
+			src += `<{{ block b() }}` + n + `-own{{ end }}|{{ yield b() }}>`
+		} else {
+			src += "TEXT" + n
+			if own {
+				src += `{{ block b() }}` + n + `-own{{ end }}`
+			}
+		}
+		files = append(files, "/"+n+".jet", src)
+		if winner == "" {
+			switch {
+			case own:
+				winner = n + "-own"
+			case i2 == 2:
+				winner = n + "-imp2"
+			case i1 == 2:
+				winner = n + "-imp1"
+			}
+		}
+	}
+	set := hxSet(nil, files...)
+	out, err := hxExec(set, "/"+chain[0]+".jet", nil, nil)
+	vfReach("rendered")
+	vfAssert(err == nil, "renders")
+	vfNote(out)
+	vfAssert(out == "<"+winner+"|"+winner+">", "root body with the most-derived definition at both sites; nothing else reaches the output")
+}
